@@ -39,6 +39,7 @@ type Program struct {
 	funcByKey map[string]*ssa.Function
 	modCache  map[*ssa.Function][]string
 	isolated  map[*ssa.Function]bool
+	gwrites   map[string]bool
 	freshCache map[*ssa.Function][]string
 	directCache map[*ssa.Function]*directInfo
 	externals map[string]int
@@ -92,6 +93,9 @@ func loadProgram(repo string, patterns []string, overlay map[string][]byte) (*Pr
 		p.funcByKey[funcKey(fn)] = fn
 		for _, b := range fn.Blocks {
 			for _, in := range b.Instrs {
+				if _, isDbg := in.(*ssa.DebugRef); isDbg {
+					continue
+				}
 				for _, op := range in.Operands(nil) {
 					if op == nil || *op == nil {
 						continue
